@@ -362,6 +362,16 @@ func (e *Engine) evalWrapper(fr *Frame, st, old *State, fn *ssa.Function, args [
 		defer func() { e.ghostDepth-- }()
 		return e.runBody(child, tmp)
 	}()
+	if e.ghostDepth == 0 && len(e.pendingFacts) > 0 {
+		seen := map[*Term]bool{}
+		for _, f := range e.pendingFacts {
+			if !seen[f] {
+				seen[f] = true
+				e.addGlobalFact(f)
+			}
+		}
+		e.pendingFacts = nil
+	}
 	if len(res) != 1 {
 		unsupported("wrapper %s returned %d values", fn.Name(), len(res))
 	}
@@ -530,20 +540,6 @@ func (e *Engine) applyContract(fr *Frame, st *State, ins ssa.Instruction, c *Con
 // (t not mentioning x) found in the given assumed facts. The result is equal to x under those facts.
 func (e *Engine) rewriteByEqualities(x *Term, facts []*Term) *Term {
 	tb := e.tb
-	var conj []*Term
-	var flat func(t *Term)
-	flat = func(t *Term) {
-		if t.Op == "and" {
-			for _, a := range t.Args {
-				flat(a)
-			}
-			return
-		}
-		conj = append(conj, t)
-	}
-	for _, f := range facts {
-		flat(f)
-	}
 	mentions := func(t *Term) bool {
 		found := false
 		vis := map[*Term]bool{}
@@ -565,18 +561,8 @@ func (e *Engine) rewriteByEqualities(x *Term, facts []*Term) *Term {
 		return found
 	}
 	cur := x
-	for _, c := range conj {
-		var lhs, rhs *Term
-		switch {
-		case c.Op == "=":
-			lhs, rhs = c.Args[0], c.Args[1]
-		case c.Sort == SBool && c.Op == "acc":
-			lhs, rhs = c, tb.True()
-		case c.Op == "not" && c.Args[0].Op == "acc":
-			lhs, rhs = c.Args[0], tb.False()
-		default:
-			continue
-		}
+	for _, pr := range e.equalitiesOf(facts) {
+		lhs, rhs := pr[0], pr[1]
 		for pass := 0; pass < 2; pass++ {
 			var path []int
 			y := lhs
